@@ -351,3 +351,71 @@ fn c03a_unpadded_size_accounting() {
     kani::cover!(tail % 4 == 0, "no padding");
     core::mem::forget(w);
 }
+
+struct CountingStage {
+    accepted: Rc<Cell<u64>>,
+}
+
+impl Write for CountingStage {
+    fn write(&mut self, b: &[u8]) -> Result<usize> {
+        self.accepted.set(self.accepted.get() + b.len() as u64);
+        Ok(b.len())
+    }
+    fn flush(&mut self) -> Result<()> { Ok(()) }
+}
+
+impl FinishableWriter for CountingStage {
+    fn finish(self: Box<Self>) -> Result<()> {
+        // starting a new block would build a real LZMA2 stage: cut the path here (recorded in the evidence)
+        kani::assume(false);
+        Ok(())
+    }
+}
+
+// C18-A: no write may push the current block beyond the configured block size.
+//@ {"name":"c18a_xz_block_size_respected","props":["C18"],"obligation":"C18-A","timeout":1500,"mem_gb":9,"functions":["xz::writer::XZWriter::write","xz::writer::XZWriter::should_finish_block"],"bounds":"block_size B in 4096..=4104, bytes already in the block s in 1..B, write length 0..=8 (all symbolic); check type None","assumes":["writer is mid-block; its stage chain is replaced by a counting stub that accepts every byte","paths that finish the block and start a new one are cut at the stub's finish()"],"stubs":["CountingStage"]}
+#[kani::proof]
+#[kani::unwind(12)]
+fn c18a_xz_block_size_respected() {
+    let b: u64 = kani::any();
+    kani::assume(b >= 4096 && b <= 4104);
+    let mut o = opts(CheckType::None, 4096);
+    o.block_size = NonZeroU64::new(b);
+    let mut w = XZWriter::new(Sink::<16>::new(), o).unwrap();
+    w.header_written = true;
+    let s: u64 = kani::any();
+    kani::assume(s >= 1 && s < b);
+    w.block_uncompressed_size = s;
+    let acc = Rc::new(Cell::new(0u64));
+    w.writer = Box::new(CountingStage { accepted: Rc::clone(&acc) });
+    let data = [0u8; 8];
+    let n: usize = kani::any();
+    kani::assume(n <= 8);
+    let r = w.write(&data[..n]);
+    assert!(s + acc.get() <= b, "C18-A: a block received more uncompressed data than the configured block size");
+    if let Ok(k) = r {
+        assert!(k <= n);
+    }
+    kani::cover!(s + n as u64 > b, "write straddles the block limit");
+    kani::cover!(s + n as u64 <= b && n > 0, "write fits");
+    core::mem::forget(w);
+}
+
+// C03-A (first half): prepare_next_block must remember where the block STARTS (before its header), because the index
+// records header + compressed data + check as the block's unpadded size.
+//@ {"name":"c03a_block_start_before_header","props":["C03","C02"],"obligation":"C03-A","timeout":2400,"mem_gb":13,"stubbing":true,"functions":["xz::writer::XZWriter::prepare_next_block","xz::writer::XZWriter::write_block_header","enc::lzma2_writer::LZMA2Writer::new"],"bounds":"no pre-filter, dict 4096, check type symbolic over None/CRC32/CRC64; unwind 42","assumes":["LZMAEncoder::new stubbed (verif_cheap_encoder)"],"stubs":["LZMAEncoder::new -> verif_cheap_encoder"]}
+#[kani::proof]
+#[kani::unwind(42)]
+#[kani::stub(crate::enc::encoder::LZMAEncoder::new, crate::enc::encoder::verif_stubs_enc::verif_cheap_encoder)]
+fn c03a_block_start_before_header() {
+    let ct = any_check();
+    let mut w = XZWriter::new(Sink::<32>::new(), opts(ct, 4096)).unwrap();
+    assert!(w.write_stream_header().is_ok());
+    let before = w.compressed_bytes_written.get();
+    assert!(w.prepare_next_block().is_ok());
+    let after = w.compressed_bytes_written.get();
+    assert!(after - before == 12, "block header for a single LZMA2 filter is 12 bytes");
+    assert!(w.current_block_start_pos == before, "C03-A: block start recorded after the block header: the index's unpadded size will omit the header");
+    kani::cover!(true, "end reached");
+    core::mem::forget(w);
+}
